@@ -210,6 +210,7 @@ func vh_C15_Cor_ManyPendingAtCompletion() {
 // ... also when MORE requests are pending than the target's request buffer holds (5): the callers whose request is still
 // waiting for room are released as well, and the target's completion itself does not hang
 func vh_C15_Cor_MorePendingThanBuffered() {
+	vfSetDelayBound(1) // 8..10 goroutines: one scheduling deviation anywhere (the thorough tier's larger bound is for the two-party races)
 	callers := vfRange("callers", 6, 7+vfTier())
 	gate := make(chan struct{})
 	var target *CorDef[int]
